@@ -162,4 +162,8 @@ theorem bridge_client_state :
 example : sortBy Gen.C12.aggregate_order ["county_fips", "postal_code"] = ["postal_code", "county_fips"] ∧
     sortBy Gen.C12.aggregate_order ["postal_code", "county_fips"] = ["postal_code", "county_fips"] := by decide
 
+/-- no buffer of the code reachable from an estimate run is read before it is written: no `np.empty` / `np.empty_like` /
+    `np.ndarray(shape)`, no ufunc that writes `where=` a mask holds into an uninitialised (or no) `out=` (static scan, regenerated) -/
+theorem bridge_no_uninitialised_memory : Gen.C12.uninitialised_buffers = [] := rfl
+
 end ElexModel.Det
